@@ -64,3 +64,36 @@ def c18(F, R, tier):
 def c15(F, R, tier):
     e3_bounds.run_bounds(F, R, want_c15=True, want_c18=False)
     R.decline('internal finiteness assertions (debug_assert!(x.is_finite())) are only covered through the guarded-division census of C08; overflow to inf of an unstable recursion is C09\'s clause')
+
+
+from . import e_window
+
+PARTIAL = ('Static analysis of the structural clauses only (stated in the evidence): the verdict is a necessary condition of the '
+           'property, decided for all inputs, window lengths and histories at once because the rules work on symbolic value graphs '
+           'and inductive invariants; the closed-form/value clauses listed under declined_clauses are not decided.')
+
+
+@register('C02', 'other',
+          'Window statistics: (W1) every window buffer provably holds exactly the last N delivered values (inductive invariant '
+          'len ≤ N with N symbolic + each step gives len+1 or exactly N); (M1/W2) sum-type aggregates are zero-seeded and every '
+          'insertion contribution is mirrored on eviction; (X1/W4) extrema are rescanned over the post-eviction window whenever '
+          'the evicted value may be the extremum; (W5) Welford counter == window length and mean corrections divide by the '
+          'post-operation count; (PC) BinaryEntropy counts the same predicate on insert and evict; Roc base register. ' + PARTIAL)
+def c02(F, R, tier):
+    e_window.run_c02(F, R)
+
+
+@register('C03', 'other',
+          'Finite memory: for the 17 listed views every place where old information could persist is of a kind that provably '
+          'forgets — window buffers hold exactly N (W1), and every state cell is a register, a mirrored accumulator, a rescanned '
+          'extremum, a counted predicate, a Welford aggregate or one of the two allowed hold registers (census). ' + PARTIAL)
+def c03(F, R, tier):
+    e_window.run_c03(F, R)
+
+
+@register('C05', 'other',
+          'RSI family: exact window, gain/loss aggregates are zero-seeded accumulators whose eviction is the mirror image of the '
+          'insertion (same tie predicate, same divisor, evicted change measured against the oldest-predecessor register, which is '
+          'advanced to the evicted value), state never depends on the raw argument, ratio guards (100 when L=0; hold when G+L=0). ' + PARTIAL)
+def c05(F, R, tier):
+    e_window.run_c05(F, R)
